@@ -105,7 +105,14 @@ fn check(prop: &str, tier: &str) -> i32 {
                 "cacache's own integrity checks are trusted; content durability against power loss is not claimed".into(),
                 "a write that reports failure makes no claim (size-hinted cas_insert of empty content fails on Linux)".into(),
             ];
-            c10::run(tier, &mut r);
+            let mut r1 = Report::new(prop, tier, "model_checking");
+            c10::run(tier, &mut r1);
+            let mut r2 = Report::new(prop, tier, "model_checking");
+            seq::run(prop, tier, &mut r2);
+            let (e1, d1) = (r1.coverage.get("evaluations").and_then(|v| v.as_u64()).unwrap_or(0), r1.coverage.get("distinct_nontrivial").and_then(|v| v.as_u64()).unwrap_or(0));
+            common::merge_reports(&mut r, vec![("entry-points", r1), ("E1-seq-shared-content", r2)]);
+            r.cov("evaluations", serde_json::json!(e1));
+            r.cov("distinct_nontrivial", serde_json::json!(d1));
             r.finish()
         }
         "C14" => {
